@@ -361,7 +361,7 @@ func (h *simHandle) Stat() (fs.FileInfo, error) {
 	}
 	return h.info, nil
 }
-func (h *simHandle) Close() error               { return nil }
+func (h *simHandle) Close() error { return nil }
 func (h *simHandle) Read(p []byte) (int, error) {
 	if h.dir {
 		return 0, &fs.PathError{Op: "read", Path: h.info.name, Err: errors.New("is a directory")}
